@@ -251,6 +251,44 @@ def tail_part(res, scratch):
         compare(res, base, got, f"file of 20 x 64 KiB + 331 bytes, {v[0]}", {"part": "big", "variant": list(v), "aligned": "tail"})
 
 
+def long_path_part(res, scratch):
+    """a record whose path column alone is longer than 4 KiB (1400 steps over a contig of 70 segments), between ordinary
+    records: the index of the plain file and of its BGZF copy must list the same records under every node"""
+    L = gen.Layout((1,) * 70, "one", 1)
+    g = vi.graph_for(L, "realistic")
+    ids = [f"s{i}" for i in range(1, 71)]
+    zig = [(">", n) for n in ids] + [("<", n) for n in reversed(ids)]
+    steps = zig * 10
+    total = sum(g.segs[n].LN for o, n in steps)
+    recs = [gen.walk_record(0, [(">", "s1"), (">", "s2")], 0, 2, 2), gen.walk_record(1, steps, 0, total, total), gen.walk_record(2, [("<", "s70")], 0, 1, 1),
+            gen.walk_record(3, [(">", "s8"), (">", "s9"), (">", "s10")], 1, 3, 3)]
+    text = "".join(r.line() + "\n" for r in recs)
+    got = {}
+    for name, variant in (("plain", ("plain",)), ("bgzf", ("bgzip64k",))):
+        d = os.path.join(scratch, "longpath-" + name)
+        os.makedirs(d, exist_ok=True)
+        gfa = os.path.join(d, "g.gfa")
+        fw.write_text(gfa, g.text())
+        gaf = vi.write_gaf(os.path.join(d, "x.gaf" + ("" if name == "plain" else ".gz")), text, variant)
+        o, ind = vi.run_index(gaf, gfa)
+        if ind is None:
+            got[name] = ("failed", o.sig())
+            continue
+        offs = sorted({x for k, v in ind.items() if k != "ref_contig" for x in v})
+        rs = vi.resolve_offsets(gaf, offs)
+        got[name] = ("ok", sorted((str(k[0]), sorted({rs[x].qname if not isinstance(rs[x], str) else "unresolvable" for x in v})) for k, v in ind.items() if k != "ref_contig"))
+    res.evaluations += 1
+    res.nt(fw.h64(["longpath"]))
+    res.count("records_with_a_path_column_over_4KiB")
+    want = sorted((n, sorted({r.qname for r in recs if vi.traverses(g, r, n)})) for n in g.segs if any(vi.traverses(g, r, n) for r in recs))
+    for name in ("plain", "bgzf"):
+        if got[name] != ("ok", want):
+            bad = got[name][1] if got[name][0] != "ok" else [x for x in want if x not in got[name][1]][:3]
+            res.fail("C17/index-long-path", f"record with a 1400-step path: the index of the {name} file is {'not built: ' + str(bad) if got[name][0] != 'ok' else 'wrong for ' + str(bad)} (the other copy: {'same' if got['plain'] == got['bgzf'] else 'different'})",
+                     {"part": "longpath"})
+            break
+
+
 def side_by_side_part(res, scratch):
     """x.gaf and x.gaf.gz next to each other, indexed and viewed with the *default* index paths (no -o / -i), in both
     orders: what is found for each file must be what is found when it is alone in its directory"""
@@ -481,6 +519,7 @@ def run_shard(spec, tier, scratch):
         tail_part(res, scratch)
     elif spec["part"] == "side":
         side_by_side_part(res, scratch)
+        long_path_part(res, scratch)
     else:
         big_part(res, scratch)
     return res
@@ -492,6 +531,9 @@ def replay(case, scratch):
         graph_part(res, scratch)
     elif case["part"] == "side":
         side_by_side_part(res, scratch)
+        return res.failures
+    elif case["part"] == "longpath":
+        long_path_part(res, scratch)
         return res.failures
     elif case["part"] == "big":
         base = run_gaf_side_padded(scratch, ("plain",), "bplain", aligned=case.get("aligned") or False)
